@@ -79,6 +79,7 @@ type World struct {
 	// LendQuery: the application is able to serve a mutation root although the universe's schema has none (the query
 	// root's node stands in): what keeps mutations from being executed is then the schema alone
 	LendQuery bool
+	onResolve func(id, field string)
 	// MapNodes: the Resolver objects are values of named map types (one per object type), registered with RegisterType
 	MapNodes bool
 }
@@ -299,7 +300,7 @@ func NewReflWorld(u *Universe, lm ListMode, b Binding) (*World, error) {
 	}
 	if b == BindRegisterLate {
 		for _, q := range []string{"{ one { __typename name } named { __typename } any { __typename } }", "{ a { name peer { name } } items { __typename } }",
-			"{ any { ... on A { name } ... on B { flag } } one { ... on B { flag } } }", "{ pv { code name } pp { ... on P { code } } }"} {
+			"{ any { ... on A { name } ... on B { flag } } one { ... on B { flag } } }", "{ pv { code name say } pp { ... on P { code say } } }"} {
 			_ = w.Root.ResolveString(q, "", nil)
 		}
 		w.TakeCalls()
@@ -317,6 +318,10 @@ func NewReflWorld(u *Universe, lm ListMode, b Binding) (*World, error) {
 		if _, ok := u.Types["P"]; ok {
 			// the field was bound to XP's method by the requests above; registered to a struct field now
 			if err := w.Root.RegisterField("P", "code", "Code2"); err != nil {
+				return nil, err
+			}
+			// ... and say, bound to the struct field Say by name, to the struct field Say2
+			if err := w.Root.RegisterField("P", "say", "Say2"); err != nil {
 				return nil, err
 			}
 		}
@@ -350,8 +355,34 @@ func NewReflWorld(u *Universe, lm ListMode, b Binding) (*World, error) {
 	return w, nil
 }
 
+// NewColdRegisteredWorld: reflection with the differently named Go types registered (RegisterType) and nothing else:
+// no request has been resolved, no field registered.  OnResolve is called for every resolver call of the world.
+func NewColdRegisteredWorld(u *Universe, onResolve func(id, field string)) (*World, error) {
+	w := &World{U: u, Strategy: Refl, ListMode: ListIfaceSlice, Binding: BindRegisterLate, faults: map[string]bool{}, nodes: map[string]interface{}{}}
+	w.onResolve = onResolve
+	w.Root = ggql.NewRoot(&refluni.Schema{B: w})
+	if err := w.Root.ParseString(u.SDL()); err != nil {
+		return nil, err
+	}
+	for _, tn := range []string{"A", "B", "C", "P"} {
+		if _, ok := u.Types[tn]; ok {
+			sample := refluni.NewAlt(w, tn, "")
+			if xp, isP := sample.(*refluni.XP); isP {
+				sample = *xp
+			}
+			if err := w.Root.RegisterType(sample, tn); err != nil {
+				return nil, err
+			}
+		}
+	}
+	return w, nil
+}
+
 // ReflResolve implements refluni.Backend.
 func (w *World) ReflResolve(id, field string, args map[string]interface{}) (interface{}, error) {
+	if w.onResolve != nil && id != "" && id != "$root" {
+		w.onResolve(id, field)
+	}
 	if id == "$root" {
 		if r, ok := w.rootNode(field); ok {
 			return w.node(r), nil
